@@ -232,7 +232,9 @@ SEEN = []
 _WCLASSES = {}
 
 
-def wrapper_mw(tid, has_wrapper):
+def _wclass(tid, has_wrapper):
+    """one middleware type per (tid, wrapper-ness); odd types derive from the preceding even one (both of its variants), so
+    stacks contain distinct types that are related by inheritance"""
     from clastic import Middleware
     key = (tid, has_wrapper)
     if key not in _WCLASSES:
@@ -243,9 +245,14 @@ def wrapper_mw(tid, has_wrapper):
                 SEEN.append(wid)
                 return inner(environ, start_response)
             return wrapped
-        attrs = {'wsgi_wrapper': wsgi_wrapper} if has_wrapper else {}
-        _WCLASSES[key] = type('W%d%s' % (tid, 'w' if has_wrapper else 'n'), (Middleware,), attrs)
-    m = _WCLASSES[key]()
+        attrs = {'wsgi_wrapper': wsgi_wrapper if has_wrapper else None}
+        bases = (Middleware,) if tid % 2 == 0 else (_wclass(tid - 1, True), _wclass(tid - 1, False))
+        _WCLASSES[key] = type('W%d%s' % (tid, 'w' if has_wrapper else 'n'), bases, attrs)
+    return _WCLASSES[key]
+
+
+def wrapper_mw(tid, has_wrapper):
+    m = _wclass(tid, has_wrapper)()
     m.wid = 'W%d' % tid
     return m
 
